@@ -42,7 +42,10 @@ class C11(SessionCheck):
             if io.get('connect') != 'ok':
                 return ('C11:e2e-connect', 'connect failed: %s' % io.get('connect'))
             from impl.e2e import notif_text
-            want = [notif_text(k) for k in range(1, io['notifs_sent'] + 1)]
+            # in the order in which the server put them on the wire (several may be placed into one batch in any order)
+            want = io.get('notifs_emitted')
+            if want is None or sorted(want) != sorted(notif_text(k) for k in range(1, io['notifs_sent'] + 1)):
+                return ('C11:harness', 'the fake server did not emit the notifications it counted')
             if io['notifs'] != want:
                 return ('C11:notification-lost-or-reordered@' + sc['profile'], 'take_notification returned %d of %d notifications / wrong order or text' % (len(io['notifs']), len(want)))
             bad = [c for c in io['calls'] if c['out'][0] != 'reply']
